@@ -13,9 +13,14 @@ T: Trace_BlobStoreFault.tla validates every segment (single pass); Trace_BlobPac
    recorded write order of every fault-free pack; every zip in `large` is checked (size limit, valid zip,
    first entry = contiguous file content)."""
 import json
+import os
 import re
+import sys
 
 import vlib
+
+sys.path.insert(0, os.path.dirname(os.path.abspath(__file__)))
+import _stream  # noqa: E402
 
 LEVEL = "model_checking"
 
@@ -50,6 +55,8 @@ def run(ctx, replay):
     is_reset = lambda e: e.get("ev") == "reset"
     if replay:
         rp = json.load(open(replay))
+        if rp.get("family") == "stream":
+            return _stream.run_replay(ctx, rp)
         raise vlib.MachineryError("C04 replays are reproduced by re-running the check with the same seed (the crash state depends on the whole scenario); "
                                   "the saved segment is in %s" % replay)
     # ---- S
@@ -100,3 +107,4 @@ def run(ctx, replay):
     ctx.assumptions += ["gate stores / KV are correct lower layers and snapshot-able; a crash is a prefix of lower-layer calls",
                         "real files of 0.5-1.5 MiB written with schema.WriteFileFromReader; multi-zip packs through the verif max-zip hook",
                         "blobpacked is configured keepGoing (its integrity check would otherwise os.Exit)"]
+    _stream.run_leg(ctx, quick, "blobpacked")
